@@ -5,8 +5,9 @@ import vlib
 from vlib import NoVerdict, log
 
 CFG = {
-    "C17": dict(quick=["MCSigner_c17q", "MCSigner_c17c", "MCSigner_c17d"], thorough=["MCSigner_c17t", "MCSigner_c17c", "MCSigner_c17d"], mode="c17", formula="TC17"),
-    "C18": dict(quick=["MCSigner_c18a", "MCSigner_c18b", "MCSigner_c18h"], thorough=["MCSigner_c18t", "MCSigner_c18h"], mode="c18", formula="TC18"),
+    "C17": dict(quick=["MCSigner_c17q", "MCSigner_c17c", "MCSigner_c17d", "MCSigner_c17lq"],
+                thorough=["MCSigner_c17t", "MCSigner_c17c", "MCSigner_c17d", "MCSigner_c17lt"], mode="c17", formula="TC17"),
+    "C18": dict(quick=["MCSigner_c18a", "MCSigner_c18b", "MCSigner_c18h", "MCSigner_c18r"], thorough=["MCSigner_c18t", "MCSigner_c18h", "MCSigner_c18r"], mode="c18", formula="TC18"),
 }
 TRACE_CFG = """SPECIFICATION TraceSpec
 CONSTANTS
@@ -16,10 +17,12 @@ CONSTANTS
   BackoffCfgs = {}
   Attempts = {}
   Ctxs = {}
+  Tries = {}
   Hists = {}
 """
 HS = os.path.join(vlib.HARNESS, "signer")
 CHUNK = 40000          # events per TLC trace-validation run
+BACKOFF_MS = 250       # delay between two tries at one endpoint in retry cases
 CONFIRM_TLS = 16       # TLS cases are re-executed in a process of their own (with the recorded history of TLS configurations)
 CONFIRM_MAX = 60       # rejected cases re-executed before they are reported
 
@@ -146,8 +149,8 @@ def vkey(trace, li):
     k = "sign n=%d via=%s eps=%s" % (len(r0["eps"]), info.get("via", "?"), eps)
     if r0["bundle"]["cas"]:
         k += " bundle=%s/%s" % ("+".join(r0["bundle"]["cas"]), r0["bundle"]["lay"])
-    if r0.get("ctx", "wide") != "wide" or r0.get("hist", "none") != "none":
-        k += " ctx=%s hist=%s" % (r0.get("ctx", "wide"), r0.get("hist", "none"))
+    if r0.get("ctx", "wide") != "wide" or r0.get("hist", "none") != "none" or r0.get("tries", 1) != 1:
+        k += " ctx=%s hist=%s tries=%d" % (r0.get("ctx", "wide"), r0.get("hist", "none"), r0.get("tries", 1))
     if e["op"] == "return":
         return k + " rej=return err=%s pan=%s%s certs=%d" % (str(e["err"]).lower(), str(e["pan"]).lower(), " hang=true" if e.get("hang") else "", len(e["certs"]))
     if e["op"] == "contact":
@@ -157,7 +160,7 @@ def vkey(trace, li):
 
 def case_of(trace):
     r0 = trace[0]
-    return {"eps": r0["eps"], "bundle": r0["bundle"], "ctx": r0.get("ctx", "wide"), "hist": r0.get("hist", "none"), "info": r0.get("info")}
+    return {"eps": r0["eps"], "bundle": r0["bundle"], "ctx": r0.get("ctx", "wide"), "tries": r0.get("tries", 1), "hist": r0.get("hist", "none"), "info": r0.get("info")}
 
 
 def proc_key(c):
@@ -165,6 +168,8 @@ def proc_key(c):
     helpers, so the history of CA files read in a process is part of the case: cases without history share a process only
     with cases over the same CAs; a case with a history step gets a process per (bundle, history kind)."""
     cas = tuple(sorted(c["bundle"]["cas"]))
+    if c.get("tries", 1) > 1:
+        return ("retry", cas, "", "%d" % c["tries"])     # the delay between tries is process-global (backoff.DefaultConfig)
     if c.get("hist", "none") == "none":
         return ("pure", cas, "", "")
     return ("hist", cas, c["bundle"]["lay"], c["hist"])
@@ -227,10 +232,15 @@ def judge(prop, verdict, sbin, bbin, traces, label, stats):
         for j, ti in enumerate(tsel):
             c = case_of(traces[ti])
             ts, _ = run_signer(prop, sbin, wd, {"mode": "c18", "cases": [], "random": 0, "n0": False, "lanes": 1, "tryms": 2000,
-                                                 "preload": (c.get("info") or {}).get("loaded0") or [], "replays": [c]}, "confirm_c18_%d" % j)
+                                                 "preload": (c.get("info") or {}).get("loaded0") or [], "replays": [c],
+                                                 "backoffms": BACKOFF_MS if c.get("tries", 1) > 1 else 0}, "confirm_c18_%d" % j)
             sanity(ts)
             if len(ts) != 1:
                 raise NoVerdict("re-execution lost a TLS case")
+            if (ts[0][0].get("info") or {}).get("discard"):
+                stats["flaky"] += 1
+                log("re-execution too slow to be judged, discarded: %s" % vkey(traces[ti], first[ti]))
+                continue
             outcome(ts[0], ti)
         if len(sign_ti) > CONFIRM_MAX:
             log("%d further rejected cases were not re-executed" % (len(sign_ti) - CONFIRM_MAX))
@@ -271,7 +281,8 @@ def replay(prop, path):
     else:
         mode = "c18" if info.get("via") == "tls" else "c17"
         ts, _ = run_signer(prop, sbin, wd, {"mode": mode, "cases": [], "random": 0, "n0": False, "lanes": 1, "tryms": 3000,
-                                             "preload": info.get("loaded0") or [], "replays": [case_of(recs)]}, "replay")
+                                             "preload": info.get("loaded0") or [], "replays": [case_of(recs)],
+                                             "backoffms": BACKOFF_MS if recs[0].get("tries", 1) > 1 else 0}, "replay")
     for t in ts:
         for r in t[1:]:
             log("replayed: %s" % json.dumps(r["e"]))
@@ -316,11 +327,20 @@ def run(prop, tier):
             if nrand and k in pure:
                 share = nrand // len(pure) + (nrand % len(pure) if k == sorted(pure)[0] else 0)
             plan = {"mode": conf["mode"], "cases": groups[k], "random": share, "n0": prop == "C17" and ci == 0 and gi == 0, "replays": [],
-                    "lanes": (48 if prop == "C17" else 8) if k[0] == "pure" else 1, "tryms": 500, "onlycas": list(k[1])}
+                    "lanes": (48 if prop == "C17" else 8) if k[0] != "hist" else 1, "tryms": 500, "onlycas": list(k[1]),
+                    "backoffms": BACKOFF_MS if k[0] == "retry" else 0}
             ts, summ = run_signer(prop, sbin, wd, plan, "main%d" % gi)
             want = len(groups[k]) + share + (4 if plan["n0"] else 0)
             if summ["cases"] != want or len(ts) != want:
                 raise NoVerdict("the harness did not execute every planned case (%s of %d)" % (summ.get("cases"), want))
+            # a timing case whose wall time shows that the machine was too slow is never judged
+            slow = [t for t in ts if (t[0].get("info") or {}).get("discard")]
+            if slow:
+                stats["slow_discarded"] = stats.get("slow_discarded", 0) + len(slow)
+                log("%d case(s) not judged: the machine was too slow for their timing (wall %s ms)" % (len(slow), [t[0]["info"].get("wallms") for t in slow][:8]))
+                if len(slow) > max(3, 0.2 * len(ts)):
+                    raise NoVerdict("too many timing cases ran too slowly to be judged (%d of %d)" % (len(slow), len(ts)))
+                ts = [t for t in ts if not (t[0].get("info") or {}).get("discard")]
             traces += ts
             ncon += summ["contacts"]
         summ = {"contacts": ncon}
@@ -365,7 +385,7 @@ def run(prop, tier):
                    "(*Signer).Sign with harness CA servers; every recorded step (what each server saw, what Sign returned, extremes of the "
                    "backoff draws) is judged by TLC with the property's step formula; distinct_nontrivial = distinct observed step labels",
            "discarded_after_reexecution": stats["flaky"], "spec_drift": stats.get("drift", 0),
-           "struct_literal_cases_dropped": stats.get("literal_dropped", 0)}
+           "struct_literal_cases_dropped": stats.get("literal_dropped", 0), "timing_cases_not_judged": stats.get("slow_discarded", 0)}
     rc = verdict.finish()
     ass = ["the CA is a harness gRPC Signing server (stub replies scripted per endpoint); C17 uses in-memory connections with the dial options "
            "of a real NewSigner (Retries = 1, so no real backoff sleeps), C18 real TLS over 127.0.0.1-4",
